@@ -126,3 +126,43 @@ func VHC12Errors() {
 	vh.Assert(text == want, "C12: the quoted source line is exactly line N of the program")
 	vh.Assert(col >= f.from && col < f.upto, "C12: the reported column falls inside the offending construct")
 }
+
+// VHC12Statements: every failing statement of C11's catalogue, on its own line of a
+// multi-line program (directly in a rule, or inside a function called from another
+// line): the error names that line, quotes it, and points inside the statement.
+func VHC12Statements() {
+	st := c11Statements[vh.Choose("stmt", len(c11Statements))]
+	before := vh.Choose("before", 3)
+	prog := ""
+	for i := 0; i < before; i++ {
+		prog += []string{"# comment é", "BEGIN { s = \"two\nlines\" }"}[i%2] + "\n"
+	}
+	line := before + 1
+	if before == 2 {
+		line++ // the string literal on the second line holds a raw newline
+	}
+	indent := []string{"", "\t", "    "}[vh.Choose("indent", 3)]
+	var faultLine string
+	if vh.Choose("ctx", 2) == 0 {
+		faultLine = indent + "BEGIN { " + st + " }"
+		prog += faultLine + "\nEND { print 'end' }"
+	} else {
+		prog += "function g() {\n"
+		faultLine = indent + st
+		prog += faultLine + "\n}\nBEGIN {\n  g()\n}"
+		line++
+	}
+	var out vh.Out
+	_, err := lang.EvalProgram(prog, nil, nil, &out, false)
+	k := legal(err, "EvalProgram")
+	vh.Reach("failing statement reported")
+	vh.Assert(k == ErrRuntime, "C12: `"+st+"` fails at run time")
+	gl, gc, gt := posOf(err)
+	from := len(faultLine) - len(st)
+	if faultLine[len(faultLine)-1] == '}' {
+		from -= 2
+	}
+	vh.Assert(gl == line, "C12: the reported line is the line of the failing statement: "+st)
+	vh.Assert(gt == faultLine, "C12: the quoted source line is that line: "+st)
+	vh.Assert(gc >= from && gc < from+len(st), "C12: the reported column falls inside the failing statement: "+st)
+}
